@@ -34,14 +34,18 @@ R == Trace[IF l = 0 THEN 1 ELSE l]
 
 CaseOf(r) == [kind |-> r.c.kind, format |-> r.c.format, mode |-> r.c.mode, np |-> r.c.np, cls |-> r.c.cls, nt |-> r.c.nt, arg |-> r.c.arg]
 
-\* set-of-states simulation of the reader machine over the observed events
+\* set-of-states simulation of the reader machine over the observed events.  The acceptor does not need the
+\* history variable `out` (the events ARE the deliveries), so it is dropped from the simulated states: long
+\* observations stay cheap.
+Norm(s) == [s EXCEPT !.out = <<>>]
+
 RECURSIVE SilentClosure(_, _)
 SilentClosure(c, S) ==
-    LET T == S \cup { x.s : x \in { y \in UNION { Succ(c, s) : s \in S } : Silent(y.e) } }
+    LET T == S \cup { Norm(x.s) : x \in { y \in UNION { Succ(c, s) : s \in S } : Silent(y.e) } }
     IN IF T = S THEN S ELSE SilentClosure(c, T)
 
 StepOn(c, S, e) ==
-    { x.s : x \in { y \in UNION { Succ(c, s) : s \in SilentClosure(c, S) } : y.e = [ev |-> e.ev, arg |-> e.arg] } }
+    { Norm(x.s) : x \in { y \in UNION { Succ(c, s) : s \in SilentClosure(c, S) } : y.e = [ev |-> e.ev, arg |-> e.arg] } }
 
 RECURSIVE RunOn(_, _, _, _)
 RunOn(c, S, evs, i) == IF i > Len(evs) \/ S = {} THEN S ELSE RunOn(c, StepOn(c, S, evs[i]), evs, i + 1)
